@@ -82,10 +82,20 @@ def evaluate(case: Dict[str, Any]) -> Dict[str, Any]:
     maxstep_user = r.choice([1e8, 1e8, 5.0, 1.0])
     is_boxed = not (np.isinf(p.lb).any() or np.isinf(p.ub).any())
     sf = prepare_scalar_function(f, x0.copy(), jac=g, bounds=(p.lb, p.ub))
+    # a third of the calls with a logger at a verbose display level: what is displayed must cost no evaluation
+    import logging
+    iprint = case.get("iprint", -1)
+    logger = None
+    if iprint >= 0:
+        logger = logging.getLogger("harness.c11.null")
+        logger.propagate = False
+        logger.setLevel(logging.INFO)
+        if not logger.handlers:
+            logger.addHandler(logging.NullHandler())
     _tls.rec = rec
     try:
         stp = M.line_search(x0.copy(), f0, g0.copy(), d.copy(), p.lb, p.ub, above_iter, maxstep_user, is_boxed, sf,
-                            ftol, gtol, xtol, cap)
+                            ftol, gtol, xtol, cap, iprint, logger)
     finally:
         _tls.rec = None
     if any(not np.isfinite(hexf(v)) for v in rec.F.values()):
@@ -95,7 +105,7 @@ def evaluate(case: Dict[str, Any]) -> Dict[str, Any]:
     out["tags"] += [f"family={p.desc['family']}", f"above_iter={above_iter}", f"cap<={5 * ((cap + 4) // 5)}",
                     f"returned={'None' if stp is None else 'step'}",
                     f"last_task={task_class(ent['dc'][-1]['out'][1]) if ent['dc'] else 'none'}",
-                    f"trials={min(nF, 6)}", f"nested_search_inside_objective={nested and inner_runs[0] > 0}"]
+                    f"trials={min(nF, 6)}", f"iprint={iprint}", f"nested_search_inside_objective={nested and inner_runs[0] > 0}"]
     # ---- the property on the real call
     for kind, key in rec.calls:
         v = np.array(hexv(key))
@@ -172,12 +182,12 @@ def evaluate(case: Dict[str, Any]) -> Dict[str, Any]:
 def run(tier: str, seed: int) -> int:
     n = 2000 if tier == "quick" else 50000
     cases = [{"seed": seed * 1_000_003 + i, "families": ["qp", "qp_quartic", "osc", "osc", "rosen", "styb", "steep", "badscale"],
-              "nested": i % 6 == 5}
+              "nested": i % 6 == 5, "iprint": [-1, -1, 99, -1, 101, 100][i % 6] if i % 6 != 5 else -1}
              for i in range(n)]
     return run_property(
         PROP, "harness.props.c11", THEOREMS, MODULES, cases, tier, seed,
         rule="stand-alone calls of line_search: convex and oscillating non-convex objectives, feasible start, direction obtained by "
-             "projecting a gradient step, iteration index 0 or later, caps 1..20, tolerances, a sixth of the calls with an objective that itself runs a line search (same tolerances) at every evaluation; evaluated points / count / returned step "
+             "projecting a gradient step, iteration index 0 or later, caps 1..20, tolerances, a third of the calls with a logger at display levels 99..101, a sixth with an objective that itself runs a line search (same tolerances) at every evaluation; evaluated points / count / returned step "
              "checked on the real call; the call is replayed through the Lean model with the recorded DCSRCH answers; non-trivial = "
              "at least two objective evaluations",
         assumptions=["in the driver-level theorems DCSRCH (SciPy) is an arbitrary oracle; its Lean model (Model/Dcsrch.lean) is compared bit for bit "
